@@ -21,7 +21,8 @@ Record fixes := mkfixes {
 Definition today : fixes := mkfixes false false false false.
 Definition repaired : fixes := mkfixes true true true true.
 
-Inductive err := EOF | ELockLen | ENotAof | EMagic | EVersion | ENoFile | ENoDataFile.
+(* [EFuel]: a loop of the model ran out of fuel (never produced by the code; a distinct outcome excluded by the theorems) *)
+Inductive err := EOF | ELockLen | ENotAof | EMagic | EVersion | ENoFile | ENoDataFile | EFuel.
 
 (* ------------------------------------------------------------------ bufio.Reader over a regular file *)
 Record rd := mkrd { r_buf : bytes; r_rest : bytes; r_size : nat }.
@@ -106,8 +107,10 @@ Definition read_lock (fx : fixes) (r : rd) (lbuf : bytes) : option err * bytes *
       end
   end.
 
-(* ReadLockData (aof.go:371-414) at stream level: both reads loop until the requested number of bytes has arrived
-   or the file ends, so the result is "the next 4+len bytes, or io.EOF".  [None] = the .dat file could not be opened. *)
+(* ReadLockData (aof.go:371-414), SPECIFICATION at stream level: "the next 4+len bytes of the value file, or io.EOF".
+   The loader uses the byte-exact [read_data_b] below (through bufio, with the two continuation loops);
+   AofProofs.read_data_b_stream proves that both agree for every reader state.  [None] = the .dat file could not be
+   opened. *)
 Definition read_data (dat : option bytes) : (bytes * option bytes) + err :=
   match dat with
   | None => inr ENoDataFile
@@ -118,6 +121,82 @@ Definition read_data (dat : option bytes) : (bytes * option bytes) + err :=
       if N.of_nat (length s - 4) <? dl then inr EOF          (* compared in N: a garbage length can be 2^32-1 *)
       else inl (firstn (4 + N.to_nat dl) s, Some (skipn (4 + N.to_nat dl) s))
   end.
+
+(* ------------------------------------------------------------------ ReadLockData, byte-exact through bufio *)
+(* copy(buf[pos:], d) on a buffer made by make([]byte, ..): the buffer is represented by its written prefix [buf], the
+   rest being zero, so the write offset [pos] is explicit and a 4 GiB buffer (garbage length) is never materialised *)
+Definition put (buf : bytes) (pos : nat) (d : bytes) : bytes :=
+  overwrite (buf ++ repeat 0 (pos + length d - length buf)) pos d.
+
+(* the continuation loops of ReadLockData over a target buffer of want+off bytes of which n+off are filled:
+       for n < want { nn, nerr := self.drbuf.Read(buf[n+off:]); if nerr != nil { return nerr }; n += nn }
+   off = 0 for the 4-byte dlbuf, off = 4 for aofLockData (payload after the copied length prefix);
+   len(buf[n+off:]) = want + off - (n + off). *)
+Fixpoint fill (fuel : nat) (r : rd) (buf : bytes) (off n want : nat) : (bytes * rd) + err :=
+  if (want <=? n)%nat then inl (buf, r)
+  else
+    match fuel with
+    | O => inr EFuel
+    | S f =>
+      let '(d, e, r1) := rd_read r (want + off - (n + off)) in
+      match e with
+      | Some e => inr e
+      | None => fill f r1 (put buf (n + off) d) off (n + length d) want
+      end
+    end.
+
+(* [wantf dl r] = the payload length handed to the reads as a nat.  The code uses dataLen itself ([want_all]); the
+   EXECUTABLE model uses [want_cap]: dataLen capped at (bytes left in the file) + 1, computed in N, because the
+   extracted nat is unary and a garbage length can be 2^32-1.  The cap cannot be observed: a read that asks for more
+   than the file still holds returns the same data, error and reader for every such length (AofProofs.rd_read_cap), and
+   the continuation loop then ends in io.EOF (AofProofs.read_data_cap_preserving: read_data_b = read_data_u). *)
+Definition want_all (dl : N) (r : rd) : nat := N.to_nat dl.
+Definition want_cap (dl : N) (r : rd) : nat := N.to_nat (N.min dl (N.of_nat (length (stream r)) + 1)).
+
+(* the 4-byte length prefix: first read into dlbuf, then the first continuation loop *)
+Definition read_prefix (r : rd) : (bytes * rd) + err :=
+  let '(d, e, r1) := rd_read r 4 in                           (* n, err := self.drbuf.Read(buf)   (buf = dlbuf, 4 bytes) *)
+  match e with
+  | Some e => inr e
+  | None => fill 4 r1 (put [] 0 d) 0 (length d) 4             (* for n < 4 { Read(buf[n:]) } *)
+  end.
+
+(* the payload: aofLockData = make([]byte, dataLen+4) with the prefix [lb] copied in; [want] = dataLen *)
+Definition read_payload (want : nat) (lb : bytes) (r2 : rd) : (bytes * rd) + err :=
+  let '(d2, e2, r3) := rd_read r2 want in                     (* n, err = self.drbuf.Read(aofLockData[4:]) *)
+  match e2 with
+  | Some e => inr e
+  | None =>
+    match fill want r3 (put lb 4 d2) 4 (length d2) want with  (* for n < dataLen { Read(aofLockData[n+4:]) } *)
+    | inr e => inr e
+    | inl (v, r4) => inl (v ++ repeat 0 (want + 4 - length v), r4)     (* the whole make'd buffer *)
+    end
+  end.
+
+Definition read_data_gen (wantf : N -> rd -> nat) (dr : option rd) : (bytes * rd) + err :=
+  match dr with
+  | None => inr ENoDataFile                                   (* self.dataFile == nil *)
+  | Some r =>
+    match read_prefix r with
+    | inr e => inr e
+    | inl (lb, r2) =>
+      let dl := unle lb in                                    (* dataLen; aofLockData[0..3] = buf[0..3] *)
+      if dl =? 0 then inl (lb, r2)                            (* if dataLen <= 0 { lock.data = aofLockData } *)
+      else read_payload (wantf dl r2) lb r2
+    end
+  end.
+
+Definition read_data_b : option rd -> (bytes * rd) + err := read_data_gen want_cap.   (* executable *)
+Definition read_data_u : option rd -> (bytes * rd) + err := read_data_gen want_all.   (* lengths as in the code *)
+
+(* the reader of the value file: bufio.NewReaderSize(self.dataFile, self.bufSize*64), created at the first ReadLockData
+   (creating it when the file is opened is the same: nothing else reads the value file).  EXECUTABLE form: the buffer
+   size is capped at (file length) + 1, computed in N (4096*64 in unary is too slow); a buffer larger than the file
+   behaves like any other buffer larger than the file, and AofProofs.load_loop_dat_indep shows that the loader depends
+   on the value reader only through its stream: [load_file] = the same with [dat_rd_code] (AofProofs.load_file_dat_rd). *)
+Definition dat_rd_code (bs : nat) (d : bytes) : rd := new_rd (bs * 64) d.
+Definition dat_rd (bs : nat) (d : bytes) : rd :=
+  new_rd (N.to_nat (N.min (N.of_nat bs * 64) (N.of_nat (length d) + 1))) d.
 
 (* ------------------------------------------------------------------ write side *)
 Inductive wr := WAof (b : bytes) | WDat (b : bytes).
